@@ -301,14 +301,17 @@ func (this *LedgerStoreImp) recoverStore() error {
 		if err != nil {
 			return fmt.Errorf("save to event store height:%d error:%s", i, err)
 		}
+		verifCrashPoint("recover:before-event-commit", i)
 		err = this.eventStore.CommitTo()
 		if err != nil {
 			return fmt.Errorf("eventStore.CommitTo height:%d error %s", i, err)
 		}
+		verifCrashPoint("recover:after-event-commit", i)
 		err = this.stateStore.CommitTo()
 		if err != nil {
 			return fmt.Errorf("stateStore.CommitTo height:%d error %s", i, err)
 		}
+		verifCrashPoint("recover:after-state-commit", i)
 	}
 	return nil
 }
@@ -429,6 +432,7 @@ func (this *LedgerStoreImp) verifyHeader(header *types.Header, vbftPeerInfo map[
 	if consensusType == "vbft" {
 		//check bookkeeppers
 		needFix := config.NETWORK_ID_MAIN_NET != config.DefConfig.P2PNode.NetworkId || this.GetCurrentHeaderHeight() <= 20000000
+		needFix = verifNeedFix(needFix)
 		m := len(vbftPeerInfo) - (len(vbftPeerInfo)-1)/3
 		if needFix {
 			m = len(vbftPeerInfo) - (len(vbftPeerInfo)*6)/7
@@ -766,19 +770,23 @@ func (this *LedgerStoreImp) submitBlock(block *types.Block, result store.Execute
 	if err != nil {
 		return fmt.Errorf("save to event store height:%d error:%s", blockHeight, err)
 	}
+	verifCrashPoint("submit:before-block-commit", blockHeight)
 	err = this.blockStore.CommitTo()
 	if err != nil {
 		return fmt.Errorf("blockStore.CommitTo height:%d error %s", blockHeight, err)
 	}
+	verifCrashPoint("submit:after-block-commit", blockHeight)
 	// event store is idempotent to re-save when in recovering process, so save first before stateStore
 	err = this.eventStore.CommitTo()
 	if err != nil {
 		return fmt.Errorf("eventStore.CommitTo height:%d error %s", blockHeight, err)
 	}
+	verifCrashPoint("submit:after-event-commit", blockHeight)
 	err = this.stateStore.CommitTo()
 	if err != nil {
 		return fmt.Errorf("stateStore.CommitTo height:%d error %s", blockHeight, err)
 	}
+	verifCrashPoint("submit:after-state-commit", blockHeight)
 	this.setCurrentBlock(blockHeight, blockHash)
 
 	if events.DefActorPublisher != nil {
